@@ -112,6 +112,27 @@ def run_cases(vh, scratch, cases, workers=12, subcmd="wrap"):
     return res, crashes
 
 
+def blank_context_cases(vh, scratch, seed, quick=True):
+    """C07 on Blank.SetSource: the histories of Wrap.tla in which the monitor is gone or a source misbehaves, executed with the
+    driver's watchdog; returns the mismatches that say 'SetSource did not come back after its context ended'."""
+    consts = dict(Mode='"blank"', Wraps='{"none"}', AVals="{0, 1}", SVals='{"unset", "p"}', MaxOps=3 if quick else 4)
+    cases, res = emit_cases(scratch, 70, consts)
+    if not res.ok:
+        raise C.Inconclusive("Wrap.tla violates its own properties (%s): specification alarm" % res.violated)
+    # only histories in which some SetSource is issued after the monitor exited are interesting here
+    sel = [c for c in cases if any(h["op"].startswith("set") and not prev["alive"] for prev, h in zip(c["hist"], c["hist"][1:]))]
+    for k, c in enumerate(sel):
+        c["id"] = "wc-%d" % k
+    results, crashes = run_cases(vh, scratch, sel)
+    byid = {c["id"]: c for c in sel}
+    out = []
+    for r in results:
+        for m in r.get("mismatches") or []:
+            if m["kind"] == "ctx":
+                out.append((m["detail"], byid.get(r["id"])))
+    return out, len(sel), res.distinct
+
+
 def run_check(pid, tier, replay=None):
     import random
     t0 = time.time()
@@ -165,7 +186,7 @@ def run_check(pid, tier, replay=None):
             if len(violations) >= 30:
                 break
             ms = r.get("mismatches") or []
-            hard = [m for m in ms if m["kind"] in ("ref", "panic")]
+            hard = [m for m in ms if m["kind"] in ("ref", "panic", "ctx")]
             if hard:
                 rp = C.write_replay(pid, r["id"], {"property": pid, "kind": "wrap", "case": byid.get(r["id"]), "mismatches": ms})
                 violations.append(("case %s step %d: %s" % (r["id"], hard[0]["step"], hard[0]["detail"][:160]), rp))
